@@ -7,7 +7,8 @@ EXTENDS ConwaySchema, CDDLGen, TraceLib
 CONSTANTS Depth, Stride
 VARIABLE c
 Types == {"transaction", "body", "output", "value", "mint", "certificate", "witness_set", "native_script", "plutus_data", "auxiliary_data", "metadata",
-          "metadatum", "input", "redeemers", "vkeywitness", "bootstrap_witness", "voting_procedures", "proposal", "script_ref", "drep", "vkeywitnesses", "bootstrap_witnesses"}
+          "metadatum", "input", "redeemers", "vkeywitness", "bootstrap_witness", "voting_procedures", "proposal", "script_ref", "drep", "vkeywitnesses", "bootstrap_witnesses",
+          "protocol_param_update", "gov_action", "header_body", "header", "operational_cert"}
 RECURSIVE Spans(_)
 Spans(it) == <<[lo |-> it.lo, hi |-> it.hi, mt |-> it.mt, ai |-> it.ai]>> \o Flat([j \in 1..Len(it.kids) |-> Spans(it.kids[j])])
 All(ty) == K1(Schema, Schema[ty], Depth)
